@@ -490,6 +490,27 @@ def offgrid_dense_scope(level="quick"):
                     cfg, {"wa": dag("chain2", [f, f], [0])})
 
 
+def zero_demand_scope(level="quick"):
+    """legal but unusual demands: a pipeline that needs no ingest machine, an
+    observation whose rate rounds to zero, both -- with durations of 2-3
+    steps.  (An observation that needs no ARRAYS is not explored: DESIGN 9.)"""
+    wa = dag("chain2", [2, 1], [0])
+    wb = dag("single", [2])
+    for M in (2, 3):
+        machines = CLUSTERS[M][0]
+        for s2 in (0, 2, 5):
+            for kind in ("no-ingest", "no-data", "neither"):
+                b = mkobs("b", s2, 3, 1, 1, 1, "wb")
+                if kind in ("no-ingest", "neither"):
+                    b["ingest"] = 0
+                if kind in ("no-data", "neither"):
+                    b["rate"] = 0.4
+                obs = [mkobs("a", 0, 2, 1, 1, 1, "wa"), b]
+                cfg = mkcfg(machines, obs, (100, 10), (100, 10), 2, 2)
+                yield "S-zero-demand/%s" % kind, mkcase(
+                    cfg, {"wa": wa, "wb": wb})
+
+
 def park_algs(case, level="quick"):
     return [{"kind": "queue"}, {"kind": "batch", "p": 1, "min": 1}]
 
